@@ -1,6 +1,460 @@
-//! C16 — not built yet.
+//! C16 — unit conversion and Number arithmetic are dimensionally sound.
+//!
+//! Cases (input = unit NAMES, i.e. first ids; every database name is `[A-Za-z0-9_]+`):
+//!   `pair`  "A B"   the ordered pair (A, B) of database units
+//!   `solo`  "A"     Numbers over A against unit-less Numbers
+//!   `none`  ""      two unit-less Numbers
+//! Everything else (magnitudes included) is derived from the input, so a case replays from its two strings.
+//! thorough: all 443 × 443 ordered pairs.  quick (≈15 k pairs, deterministic given the seed): all pairs among
+//! the temperature / byte / quantity-"dimensionless" units, all pairs whose composed name is a database unit,
+//! all pairs that can reach the `len() == 1` path of Mul/Div through a single-id unit, every unit with itself,
+//! 3000 random pairs (half of them convertible).
+//!
+//! Oracles on the real code (kind → what the property demands):
+//!   conv_guard    `A.convert_to(x, B)` is Ok  ⇔  A.dimensions == B.dimensions  or  both are byte units
+//!                 (byte unit, for the oracle: quantity "bytes")
+//!   conv_formula  the result is ((x·scale_A + offset_A) − offset_B) / scale_B: compared with a double-double
+//!                 (≈106 bit) evaluation of that formula on the implementation's own table values;
+//!                 tolerance 1e-14 · (|x·scale_A| + |offset_A| + |offset_B|) / |scale_B|
+//!                 (a rigorous bound for 4 correctly rounded operations is 4·2⁻⁵³ ≈ 4.4e-16 of that magnitude;
+//!                 the magnitude — not |result| — because of the cancellation in the two offset steps)
+//!   conv_inverse  converting the result back gives x within 1e-14 · (|x| + (|offset_A| + |offset_B|) / |scale_A|)
+//!                 ("within floating-point rounding": a few ulp of the intermediate magnitudes, both directions)
+//!   mul_sound / div_sound   `&A * B` / `&A / B` = Ok(u)  ⇒  u is the database unit of its name,
+//!                 u.dimensions = A.dimensions ± B.dimensions (computed here in i16),
+//!                 u.scale ≈ A.scale ×/÷ B.scale (within 1/1000 of the smaller magnitude — the tolerance of the lookup)
+//!   add_unit / sub_unit     Number(x, A) ± Number(y, B): same unit ⇒ Ok, the unit is kept and the value is x ± y;
+//!                 two different units ⇒ Err.  (One unit-less operand: the property is silent; the behaviour
+//!                 "adopt the other operand's unit" is compared with the model only.)
+//!   nmul_sound / ndiv_sound Number × ÷ Number over A and B: when Ok, the unit of the result is sound as above.
+//!
+//! Correspondence (decisions and unit names only; magnitudes never travel as text):
+//!   `C16 pair A B`  → `c=<ok|err> m=<name|err> d=<name|err> a=<name|-|err> s=… nm=… nd=…`
+//!   `C16 solo A`    → the eight results of  (x,A) op (y,—)  and  (x,—) op (y,A)
+//!   `C16 none`      → the four results of two unit-less Numbers
+//!   `C16 cx A B <bits of x> <bits of the implementation's result>` → `in`: the exact-rational model
+//!                   (scale/offset = the decimal literals of the source) agrees within 1e-14 of the magnitude above.
+
 use crate::ctx::{CaseOut, Ctx};
+use libhaystack::units::units_generated::UNITS;
+use libhaystack::units::{Unit, UnitDimensions};
+use libhaystack::val::Number;
+use std::collections::{BTreeMap, BTreeSet};
+use std::sync::OnceLock;
 
-pub fn exec(_label: &str, _input: &str, _out: &mut CaseOut) {}
+/// all database units, sorted by name (UNITS has one entry per id)
+fn units() -> &'static Vec<&'static Unit> {
+    static CELL: OnceLock<Vec<&'static Unit>> = OnceLock::new();
+    CELL.get_or_init(|| {
+        let mut m: BTreeMap<String, &'static Unit> = BTreeMap::new();
+        for (_, u) in UNITS.iter() {
+            m.entry(u.name().to_string()).or_insert(*u);
+        }
+        m.into_values().collect()
+    })
+}
 
-pub fn generate(_ctx: &mut Ctx) {}
+fn by_name(n: &str) -> Option<&'static Unit> {
+    let us = units();
+    us.binary_search_by(|u| u.name().cmp(n)).ok().map(|i| us[i])
+}
+
+fn is_bytes(u: &Unit) -> bool {
+    u.quantity.as_deref() == Some("bytes")
+}
+
+// ---- double-double reference arithmetic ------------------------------------------------------
+#[derive(Clone, Copy)]
+struct DD(f64, f64);
+
+fn two_sum(a: f64, b: f64) -> (f64, f64) {
+    let s = a + b;
+    let bb = s - a;
+    (s, (a - (s - bb)) + (b - bb))
+}
+fn quick_two_sum(a: f64, b: f64) -> DD {
+    let s = a + b;
+    DD(s, b - (s - a))
+}
+fn two_prod(a: f64, b: f64) -> (f64, f64) {
+    let p = a * b;
+    (p, a.mul_add(b, -p))
+}
+fn dd(x: f64) -> DD {
+    DD(x, 0.0)
+}
+fn dd_add(x: DD, y: DD) -> DD {
+    let (s, e) = two_sum(x.0, y.0);
+    let (t, f) = two_sum(x.1, y.1);
+    let r = quick_two_sum(s, e + t);
+    quick_two_sum(r.0, r.1 + f)
+}
+fn dd_neg(x: DD) -> DD {
+    DD(-x.0, -x.1)
+}
+fn dd_mul(x: DD, y: DD) -> DD {
+    let (p, e) = two_prod(x.0, y.0);
+    quick_two_sum(p, e + (x.0 * y.1 + x.1 * y.0))
+}
+fn dd_div(x: DD, y: DD) -> DD {
+    let q1 = x.0 / y.0;
+    let r = dd_add(x, dd_neg(dd_mul(y, dd(q1))));
+    let q2 = r.0 / y.0;
+    let r = dd_add(r, dd_neg(dd_mul(y, dd(q2))));
+    let q3 = r.0 / y.0;
+    dd_add(quick_two_sum(q1, q2), dd(q3))
+}
+/// ((x·sa + oa) − ob) / sb  in double-double
+fn formula_dd(x: f64, a: &Unit, b: &Unit) -> DD {
+    let t = dd_add(dd_mul(dd(x), dd(a.scale)), dd(a.offset));
+    let t = dd_add(t, dd(-b.offset));
+    dd_div(t, dd(b.scale))
+}
+
+// ---- magnitudes --------------------------------------------------------------------------------
+const MAGS: &[f64] = &[0.0, 1.0, -1.0, 0.5, 100.0, -40.0, 273.15, 1.0e6, 1.0e-3, 37.5, 1234.5678, -459.67];
+
+fn fnv(s: &str) -> u64 {
+    let mut h: u64 = 0xcbf29ce484222325;
+    for b in s.as_bytes() {
+        h ^= *b as u64;
+        h = h.wrapping_mul(0x100000001b3);
+    }
+    h
+}
+
+/// the fixed spread plus two magnitudes derived from the input (log-uniform 1e-6 … 1e9, either sign)
+fn magnitudes(input: &str) -> Vec<f64> {
+    let mut v = MAGS.to_vec();
+    let mut r = crate::rng::Rng::new(fnv(input));
+    for _ in 0..2 {
+        let e = (r.below(15_000) as f64) / 1000.0 - 6.0;
+        let m = 10f64.powf(e) * (1.0 + (r.below(1 << 20) as f64) / ((1u64 << 20) as f64));
+        v.push(if r.chance(1, 3) { -m } else { m });
+    }
+    v
+}
+
+// ---- what the property demands of a product / quotient ---------------------------------------
+fn dims16(d: &UnitDimensions) -> [i16; 7] {
+    [d.kg as i16, d.m as i16, d.sec as i16, d.k as i16, d.a as i16, d.mol as i16, d.cd as i16]
+}
+
+fn approx(a: f64, b: f64) -> bool {
+    a == b || (a - b).abs() <= f64::min(a.abs(), b.abs()) / 1e3
+}
+
+/// is `s` ≈ one of sa·sb, sa/sb, sb/sa ?
+fn approx_any(sa: f64, sb: f64, s: f64) -> bool {
+    approx(s, sa * sb) || approx(s, sa / sb) || approx(s, sb / sa)
+}
+
+/// `u` claimed as `a op b` (`op` = '*' or '/'); returns a description of what is wrong
+fn unsound(a: &Unit, b: &Unit, u: &Unit, op: char) -> Option<String> {
+    match UNITS.get(u.name()) {
+        Some(d) if std::ptr::eq(*d, u) => {}
+        _ => return Some(format!("result `{}` is not the database unit of that name", u.name())),
+    }
+    let (da, db) = match (&a.dimensions, &b.dimensions) {
+        (Some(x), Some(y)) => (dims16(x), dims16(y)),
+        // a dimension-less operand has no exponent vector: nothing to compare (the model says Err; a change
+        // shows up in the correspondence)
+        _ => return None,
+    };
+    let mut want = [0i16; 7];
+    for i in 0..7 {
+        want[i] = if op == '*' { da[i] + db[i] } else { da[i] - db[i] };
+    }
+    match &u.dimensions {
+        Some(du) if dims16(du) == want => {}
+        other => return Some(format!("dimensions of `{}` are {:?}, expected exponents {:?}", u.name(), other, want)),
+    }
+    let scale = if op == '*' { a.scale * b.scale } else { a.scale / b.scale };
+    if !approx(u.scale, scale) {
+        return Some(format!("scale of `{}` is {}, expected ≈ {}", u.name(), u.scale, scale));
+    }
+    None
+}
+
+fn uname(r: &Result<&'static Unit, String>) -> String {
+    match r {
+        Ok(u) => u.name().to_string(),
+        Err(_) => "err".into(),
+    }
+}
+fn nname(r: &Result<Number, String>) -> String {
+    match r {
+        Ok(n) => n.unit.map_or("-".to_string(), |u| u.name().to_string()),
+        Err(_) => "err".into(),
+    }
+}
+
+const X: f64 = 6.0;
+const Y: f64 = 1.5;
+
+fn exec_pair(input: &str, a: &'static Unit, b: &'static Unit, out: &mut CaseOut) {
+    let an = a.name();
+    let bn = b.name();
+    let mut interesting = false;
+
+    // ---- conversion --------------------------------------------------------------------------
+    let want_ok = a.dimensions == b.dimensions || (is_bytes(a) && is_bytes(b));
+    let mut conv_ok = None;
+    for &x in magnitudes(input).iter() {
+        let r = a.convert_to(x, b);
+        if conv_ok.is_none() {
+            conv_ok = Some(r.is_ok());
+        }
+        if r.is_ok() != want_ok {
+            out.fail(
+                "conv_guard",
+                format!("{an}.convert_to({x}, {bn}) is {} but dimensions {} ({:?} vs {:?}; byte units: {} {})",
+                    if r.is_ok() { "Ok" } else { "Err" }, if a.dimensions == b.dimensions { "are equal" } else { "differ" },
+                    a.dimensions, b.dimensions, is_bytes(a), is_bytes(b)),
+            );
+            break;
+        }
+        if conv_ok != Some(r.is_ok()) {
+            out.fail("conv_guard", format!("{an}.convert_to(·, {bn}) succeeds for some magnitudes only (x = {x})"));
+            break;
+        }
+        let Ok(y) = r else { continue };
+        interesting = true;
+        let mag = (x * a.scale).abs() + a.offset.abs() + b.offset.abs();
+        let tol = 1e-14 * mag / b.scale.abs();
+        let want = formula_dd(x, a, b);
+        let diff = dd_add(want, dd(-y));
+        if !(diff.0.abs() <= tol) {
+            out.fail(
+                "conv_formula",
+                format!("{an}.convert_to({x}, {bn}) = {y}, the formula gives {} (difference {:e}, tolerance {:e})", want.0, diff.0, tol),
+            );
+        }
+        out.req(format!("C16 cx {an} {bn} {:016x} {:016x}", x.to_bits(), y.to_bits()), "in".into());
+        match b.convert_to(y, a) {
+            Ok(x2) => {
+                let tol = 1e-14 * (x.abs() + (a.offset.abs() + b.offset.abs()) / a.scale.abs());
+                if !((x2 - x).abs() <= tol) {
+                    out.fail(
+                        "conv_inverse",
+                        format!("{an}.convert_to({x}, {bn}) = {y}, {bn}.convert_to({y}, {an}) = {x2} (off by {:e}, tolerance {:e})", (x2 - x).abs(), tol),
+                    );
+                }
+            }
+            Err(_) => out.fail("conv_inverse", format!("{an} → {bn} converts but {bn} → {an} does not")),
+        }
+    }
+
+    // ---- product / quotient of the units ---------------------------------------------------------
+    let m = a * b;
+    let d = a / b;
+    if let Ok(u) = &m {
+        interesting = true;
+        out.stat("mul:ok");
+        if let Some(w) = unsound(a, b, u, '*') {
+            out.fail("mul_sound", format!("{an} * {bn} = {}: {w}", u.name()));
+        }
+    }
+    if let Ok(u) = &d {
+        interesting = true;
+        out.stat("div:ok");
+        if let Some(w) = unsound(a, b, u, '/') {
+            out.fail("div_sound", format!("{an} / {bn} = {}: {w}", u.name()));
+        }
+    }
+
+    // ---- Numbers -----------------------------------------------------------------------------
+    let na = Number { value: X, unit: Some(a) };
+    let nb = Number { value: Y, unit: Some(b) };
+    let same = std::ptr::eq(a, b);
+    let add = na + nb;
+    let sub = na - nb;
+    for (kind, r, want) in [("add_unit", &add, X + Y), ("sub_unit", &sub, X - Y)] {
+        match r {
+            Ok(n) if same => {
+                interesting = true;
+                if !n.unit.map_or(false, |u| std::ptr::eq(u, a)) {
+                    out.fail(kind, format!("{X}{an} ± {Y}{bn}: the common unit is not kept (got {:?})", n.unit.map(|u| u.name())));
+                }
+                if n.value != want {
+                    out.fail(kind, format!("{X}{an} ± {Y}{bn}: value {} instead of {want}", n.value));
+                }
+            }
+            Ok(n) => out.fail(kind, format!("{X}{an} ± {Y}{bn} is Ok({}{:?}) although the units differ", n.value, n.unit.map(|u| u.name()))),
+            Err(_) if same => out.fail(kind, format!("{X}{an} ± {Y}{bn} fails although the units are the same")),
+            Err(_) => {}
+        }
+    }
+    let nm = na * nb;
+    let nd = na / nb;
+    for (kind, r, op) in [("nmul_sound", &nm, '*'), ("ndiv_sound", &nd, '/')] {
+        if let Ok(n) = r {
+            match n.unit {
+                Some(u) => {
+                    if let Some(w) = unsound(a, b, u, op) {
+                        out.fail(kind, format!("{X}{an} {op} {Y}{bn} has unit {}: {w}", u.name()));
+                    }
+                }
+                None => out.fail(kind, format!("{X}{an} {op} {Y}{bn} is Ok without a unit")),
+            }
+        }
+    }
+
+    out.req(
+        format!("C16 pair {an} {bn}"),
+        format!(
+            "c={} m={} d={} a={} s={} nm={} nd={}",
+            if conv_ok == Some(true) { "ok" } else { "err" },
+            uname(&m), uname(&d), nname(&add), nname(&sub), nname(&nm), nname(&nd)
+        ),
+    );
+    out.stat(if conv_ok == Some(true) { "conv:ok" } else { "conv:err" });
+    out.nontrivial = interesting;
+}
+
+fn exec_solo(a: &'static Unit, out: &mut CaseOut) {
+    let na = Number { value: X, unit: Some(a) };
+    let n0 = Number { value: Y, unit: None };
+    let rs = [na + n0, na - n0, na * n0, na / n0, n0 + na, n0 - na, n0 * na, n0 / na];
+    let txt: Vec<String> = rs.iter().map(nname).collect();
+    out.req(format!("C16 solo {}", a.name()), txt.join(" "));
+    out.nontrivial = true;
+}
+
+fn exec_none(out: &mut CaseOut) {
+    let p = Number { value: X, unit: None };
+    let q = Number { value: Y, unit: None };
+    let rs = [p + q, p - q, p * q, p / q];
+    // the common "unit" of two unit-less Numbers is no unit
+    for (i, (r, want)) in rs.iter().zip([X + Y, X - Y]).enumerate() {
+        let kind = if i == 0 { "add_unit" } else { "sub_unit" };
+        match r {
+            Ok(n) if n.unit.is_none() && n.value == want => {}
+            other => out.fail(kind, format!("{X} ± {Y} (no units) gives {other:?}")),
+        }
+    }
+    let txt: Vec<String> = rs.iter().map(nname).collect();
+    out.req("C16 none".to_string(), txt.join(" "));
+    out.nontrivial = true;
+}
+
+pub fn exec(label: &str, input: &str, out: &mut CaseOut) {
+    let names: Vec<&str> = input.split_whitespace().collect();
+    let kind = label.split(':').next().unwrap_or(label);
+    match (kind, names.as_slice()) {
+        ("none", []) => exec_none(out),
+        ("solo", [a]) => match by_name(a) {
+            Some(a) => exec_solo(a, out),
+            None => out.fail("harness", format!("no database unit named {a}")),
+        },
+        ("pair", [a, b]) => match (by_name(a), by_name(b)) {
+            (Some(a), Some(b)) => exec_pair(input, a, b, out),
+            _ => out.fail("harness", format!("no database units named {a} / {b}")),
+        },
+        _ => out.fail("harness", "unparsable C16 input".into()),
+    }
+}
+
+pub fn generate(ctx: &mut Ctx) {
+    let us = units();
+    let n = us.len();
+    ctx.case("none", "");
+    if !ctx.quick() {
+        // exhaustive: every ordered pair of database units
+        for a in us.iter() {
+            for b in us.iter() {
+                ctx.case("pair", &format!("{} {}", a.name(), b.name()));
+            }
+        }
+        for u in us.iter() {
+            ctx.case("solo", u.name());
+        }
+        return;
+    }
+    // quick: a deterministic sample.
+    let mut seen: BTreeSet<(usize, usize)> = BTreeSet::new();
+    fn emit_pair(seen: &mut BTreeSet<(usize, usize)>, ctx: &mut Ctx, label: &str, i: usize, j: usize) {
+        let us = units();
+        if seen.insert((i, j)) {
+            ctx.case(label, &format!("{} {}", us[i].name(), us[j].name()));
+        }
+    }
+    // (1) all ordered pairs among the temperature, byte and quantity-"dimensionless" units
+    let special: Vec<usize> = (0..n)
+        .filter(|&i| {
+            let q = us[i].quantity.as_deref().unwrap_or("");
+            q.starts_with("temperature") || q == "bytes" || q == "dimensionless"
+        })
+        .collect();
+    for &i in &special {
+        for &j in &special {
+            emit_pair(&mut seen, ctx, "pair:special", i, j);
+        }
+    }
+    // (2) pairs whose composed name `a_b`, `a_per_b`, `as_per_b` is the name of a database unit
+    for u in us.iter() {
+        let name = u.name();
+        for (pos, _) in name.match_indices('_') {
+            let (l, r) = (&name[..pos], &name[pos + 1..]);
+            let mut cands: Vec<(String, String)> = vec![(l.to_string(), r.to_string())];
+            if let Some(r2) = r.strip_prefix("per_") {
+                cands.push((l.to_string(), r2.to_string()));
+                if let Some(l2) = l.strip_suffix('s') {
+                    cands.push((l2.to_string(), r2.to_string()));
+                }
+            }
+            for (x, y) in cands {
+                if let (Ok(i), Ok(j)) = (us.binary_search_by(|u| u.name().cmp(&x)), us.binary_search_by(|u| u.name().cmp(&y))) {
+                    emit_pair(&mut seen, ctx, "pair:composed", i, j);
+                }
+            }
+        }
+    }
+    // (3) the `units.len() == 1` path of Mul/Div: a unit with a single id is the only thing `match_units` can
+    //     return alone.  Every pair with such a unit as an operand, and every pair whose exponent sum or
+    //     difference (either way round) is that of such a unit.
+    let single: Vec<usize> = (0..n).filter(|&i| us[i].ids.len() == 1).collect();
+    for &k in &single {
+        for i in 0..n {
+            emit_pair(&mut seen, ctx, "pair:single", i, k);
+            emit_pair(&mut seen, ctx, "pair:single", k, i);
+        }
+        let Some(dk) = us[k].dimensions.as_ref().map(dims16) else { continue };
+        for i in 0..n {
+            let Some(di) = us[i].dimensions.as_ref().map(dims16) else { continue };
+            for j in 0..n {
+                let Some(dj) = us[j].dimensions.as_ref().map(dims16) else { continue };
+                let hit = (0..7).all(|t| di[t] + dj[t] == dk[t]) || (0..7).all(|t| di[t] - dj[t] == dk[t]) || (0..7).all(|t| dj[t] - di[t] == dk[t]);
+                if hit && approx_any(us[i].scale, us[j].scale, us[k].scale) {
+                    emit_pair(&mut seen, ctx, "pair:single", i, j);
+                }
+            }
+        }
+    }
+    // (4) random pairs: half of them inside one dimension class (convertible), every unit paired with itself
+    let mut rng = ctx.rng.fork();
+    for i in 0..n {
+        emit_pair(&mut seen, ctx, "pair:self", i, i);
+    }
+    let mut classes: BTreeMap<String, Vec<usize>> = BTreeMap::new();
+    for (i, u) in us.iter().enumerate() {
+        classes.entry(format!("{:?}", u.dimensions)).or_default().push(i);
+    }
+    let classes: Vec<Vec<usize>> = classes.into_values().filter(|c| c.len() > 1).collect();
+    let target = seen.len() + ctx.n(3000, 3000) as usize;
+    let mut guard = 0;
+    while seen.len() < target && guard < 100_000 {
+        guard += 1;
+        if rng.chance(1, 2) {
+            let c = rng.pick(&classes);
+            let (i, j) = (*rng.pick(c), *rng.pick(c));
+            emit_pair(&mut seen, ctx, "pair:samedim", i, j);
+        } else {
+            let (i, j) = (rng.below(n as u64) as usize, rng.below(n as u64) as usize);
+            emit_pair(&mut seen, ctx, "pair:random", i, j);
+        }
+    }
+    for u in us.iter() {
+        ctx.case("solo", u.name());
+    }
+}
